@@ -4,7 +4,7 @@
    Model/FileCache.v: FileCache (Put, removeOldEntries, Get, Evict, key), Load,
    Line.Autofix and the five fix operations, SaveAutofixChanges, over an explicit
    heap of Line objects.  A history is any list of
-     OLoad fn o | OFix view line fixop | OSave view | OModify file content (+ Evict);
+     OLoad fn o | OFix view line fixop | OSave view failing-files | OModify file content (+ Evict);
    overflow of the cache is what loads of further *.mk files do.
    `reach convert is_mk md cap disk s`: s is reachable from a fresh G (cache of
    capacity cap, files as in disk) in mode md (default / --show-autofix / --autofix)
@@ -107,8 +107,8 @@ Print Assumptions C20_load_transparent_refuted.
    of every line with a modified fix, is out of the cache afterwards, so the next
    Load of it reads the disk -- unconditionally *)
 Theorem C20_no_stale_after_save :
-  forall convert is_mk md cap disk s v s' w, (1 <= cap)%nat -> reach convert is_mk md cap disk s ->
-  step convert is_mk md s (OSave v) = Ok (s', ObsSave w) ->
+  forall convert is_mk md cap disk s v fail s' w, (1 <= cap)%nat -> reach convert is_mk md cap disk s ->
+  step convert is_mk md s (OSave v fail) = Ok (s', ObsSave w) ->
   (forall k x, In (k, x) w -> map_get k (c_map (st_cache s')) = None) /\
   (forall fn ls l, view_lines s v = Some (fn, ls) -> In l ls -> is_modified l = true ->
      map_get (key (ln_file l)) (c_map (st_cache s')) = None) /\
@@ -120,6 +120,35 @@ Theorem C20_no_stale_after_save :
      load_obs s'' r = fresh_read convert (st_disk s') fn o).
 Proof. exact no_stale_after_save. Qed.
 Print Assumptions C20_no_stale_after_save.
+
+(* ... and under EVERY outcome of the write: when the rewrite of a file fails
+   (pre-existing *.pkglint.tmp, unwritable directory, failing rename -- the list
+   `fail`), nothing is reported as written for it, the disk keeps its content, the
+   file is evicted all the same, and the next Load returns the lines of the
+   UNCHANGED file, not the fixed lines that are still in memory *)
+Theorem C20_no_stale_after_failed_save :
+  forall convert is_mk md cap disk s v fail s' w, (1 <= cap)%nat -> reach convert is_mk md cap disk s ->
+  step convert is_mk md s (OSave v fail) = Ok (s', ObsSave w) ->
+  (forall k, key_in k fail = true ->
+     map_get k (st_disk s') = map_get k (st_disk s) /\ ~ In k (map fst w)) /\
+  (forall f ls l fn o s'' r,
+     view_lines s v = Some (f, ls) -> In l ls -> is_modified l = true ->
+     key fn = key (ln_file l) -> key_in (key fn) fail = true ->
+     load convert is_mk s' fn o = Ok (s'', r) ->
+     map_get (key fn) (c_map (st_cache s')) = None /\
+     load_obs s'' r = fresh_read convert (st_disk s) fn o).
+Proof. exact no_stale_after_failed_save. Qed.
+Print Assumptions C20_no_stale_after_failed_save.
+
+(* over a whole run no Line object is handed out twice *)
+Theorem C20_line_ids_never_reused :
+  forall convert is_mk md cap disk s, (1 <= cap)%nat -> reach convert is_mk md cap disk s ->
+  (forall v w fv av fw aw a,
+     nth_error (st_views s) v = Some (fv, av) -> nth_error (st_views s) w = Some (fw, aw) ->
+     In a av -> In a aw -> v = w) /\
+  (forall v fn addrs, nth_error (st_views s) v = Some (fn, addrs) -> NoDup addrs).
+Proof. exact line_ids_never_reused. Qed.
+Print Assumptions C20_line_ids_never_reused.
 
 (* every Load hands out Line objects that did not exist before, with no fix
    attached, disjoint from every earlier view, and leaves the earlier views alone *)
@@ -154,7 +183,7 @@ Proof. exact wit_guard_false. Qed.
 
 (* the same history followed by SaveAutofixChanges of the fixed view satisfies the
    guard, and the Load is served correctly (here from the disk: the save evicted) *)
-Definition ex_ops : list op := wit_ops ++ [OSave 0].
+Definition ex_ops : list op := wit_ops ++ [OSave 0 []].
 Definition ex_state (md : mode) : state :=
   fst (fst (run convert_plain all_mk md (init_state 2 wit_disk) ex_ops)).
 Example C20_guard_satisfiable : forall md,
@@ -173,7 +202,7 @@ Qed.
 (* a guarded history with a hit, a fix, a save and a reload; without the save it is not guarded *)
 Example C20_guarded_history :
   guarded convert_plain all_mk ModeAutofix (init_state 2 wit_disk)
-          ([OLoad (0, 0) 4; OLoad (0, 1) 4] ++ [OFix 0 0 (FReplaceAt 0 2 [32] [9]); OSave 0; OLoad (0, 0) 4]) = true /\
+          ([OLoad (0, 0) 4; OLoad (0, 1) 4] ++ [OFix 0 0 (FReplaceAt 0 2 [32] [9]); OSave 0 []; OLoad (0, 0) 4]) = true /\
   guarded convert_plain all_mk ModeAutofix (init_state 2 wit_disk) (wit_ops ++ [OLoad (0, 0) 4]) = false.
 Proof. split; vm_compute; reflexivity. Qed.
 
@@ -187,3 +216,17 @@ Proof.
   split; [vm_compute; reflexivity|].
   eexists; eexists. split; [vm_compute; reflexivity|]. split; vm_compute; reflexivity.
 Qed.
+
+(* a failing save: Load a.mk; ReplaceAt through the view; SaveAutofixChanges whose
+   write fails; Load a.mk: nothing written, disk unchanged, and the second Load
+   shows the lines of the unchanged file (whereas without the save it shows the
+   fixed Text, C20_load_transparent_refuted) *)
+Definition failed_save_run :=
+  run convert_plain all_mk ModeAutofix (init_state 2 wit_disk) (wit_ops ++ [OSave 0 [0]; OLoad (0, 0) 4]).
+Example C20_failed_save_example :
+  snd failed_save_run = None /\
+  st_disk (fst (fst failed_save_run)) = wit_disk /\
+  nth 2 (snd (fst failed_save_run)) ObsBad = ObsSave [] /\
+  nth 3 (snd (fst failed_save_run)) ObsBad = ObsLoad (fresh_read convert_plain wit_disk (0, 0) 4) /\
+  fresh_read convert_plain wit_disk (0, 0) 4 <> None.
+Proof. vm_compute. repeat split; try reflexivity. discriminate. Qed.
